@@ -150,7 +150,7 @@ def check_spec(specname, N, fixed=None, qtimeout_ms=30000, use_pre=True, want_mo
     for a in sp.args:
         if a.depth == 1:
             cap = ctx.arrays[a.name].cap
-            prem.append(z3.And(cap >= 0, cap <= 4 * N * N + 64))
+            prem.append(z3.And(cap >= 0, cap <= 70000))       # large enough to reach the int8/int16 index boundaries
     ctx.assume(*prem)
     res['premises'] = len(prem)
     # vacuity: premises satisfiable at all
@@ -229,6 +229,13 @@ def check_spec(specname, N, fixed=None, qtimeout_ms=30000, use_pre=True, want_mo
         tw['write-reachable'] = str(ctx.solve([live, z3.Or(wr)], qtimeout_ms)[0])
     res['twins'] = tw
     res['nsat'], res['nunknown'] = nsat, nunk
+    # translator validation (DESIGN 2.7): evaluate the encoding under a model of the premises and compare with the natively
+    # compiled kernel run on the same concrete inputs (only when every access was proved in bounds)
+    if nsat == 0 and nunk == 0 and not safety_only:
+        try:
+            res['validated'] = validate_encoding(ctx, sp, spec, pmap, live, wr, qtimeout_ms)
+        except Exception as e:      # noqa
+            res['validated'] = dict(ok=False, why='validation failed to run: %s: %s' % (type(e).__name__, e))
     if nsat:
         res['status'] = 'disagree'
         res['cex'] = cex
@@ -237,6 +244,49 @@ def check_spec(specname, N, fixed=None, qtimeout_ms=30000, use_pre=True, want_mo
     if tw.get('ok-reachable') == 'unsat' and tw.get('error-reachable') != 'sat':
         res['status'] = 'vacuous'
     return res
+
+
+def validate_encoding(ctx, sp, spec, pmap, live, wr, qtimeout_ms):
+    r, m = ctx.solve([live] + ([z3.Or(wr)] if wr else []), qtimeout_ms)
+    if r != z3.sat:
+        r, m = ctx.solve(live, qtimeout_ms)
+    if r != z3.sat:
+        return dict(ok=None, why='no model')
+    inp = ctx.concretize(m, maxcap=128)
+    if any(a['cap'] > 100000 or a['cap'] < 0 for a in inp['arrays'].values()):
+        return dict(ok=None, why='model capacities too large')
+    arrays = {}
+    for n, a in inp['arrays'].items():
+        xs = list(a['values']) + [a.get('fill', 0)] * (a['cap'] - len(a['values']))
+        for i, v in (a.get('sparse') or {}).items():
+            if int(i) < len(xs):
+                xs[int(i)] = v
+        arrays[n] = xs
+    err, outs = native.run_ctypes(sp, inp['scalars'], arrays)
+    kerr = z3.is_true(m.eval(ctx.errs[-1][2], model_completion=True))
+    if (err is not None) != kerr:
+        return dict(ok=False, why='status: native %r, encoding %r' % (err, kerr))
+    bad = []
+    ncell = 0
+    for g, nm, idx, rw in spec.acc:
+        if rw != 'w' or not z3.is_true(m.eval(g, model_completion=True)):
+            continue
+        a = pmap[nm]
+        i = m.eval(idx, model_completion=True).as_signed_long()
+        kv = m.eval(z3.Select(ctx.final_arr(a.name), z3.BitVecVal(i, 64)), model_completion=True)
+        if a.kind == 'f':
+            kvp = kharness.fp_to_py(kv)
+        else:
+            kvp = kv.as_signed_long() if a.signed else kv.as_long()
+            if a.kind == 'b':
+                kvp = bool(kvp)
+        nv = outs[a.name][i]
+        ncell += 1
+        if not same(a, kvp, nv):
+            bad.append((a.name, i, kvp, nv))
+    if bad:
+        return dict(ok=False, why='cells differ: %s' % bad[:3])
+    return dict(ok=True, cells=ncell)
 
 
 # ------------------------------------------------------------------------------------------------ replay
@@ -268,8 +318,11 @@ def exec_definition(kernel, spec, inputs):
             argv.append(inputs['scalars'][a.name])
         else:
             info = inputs['arrays'][a.name]
-            cap = max(0, min(info['cap'], 4096))
-            vals = list(info['values'][:cap]) + [0] * (cap - len(info['values']))
+            cap = max(0, min(info['cap'], 100000))
+            vals = list(info['values'][:cap]) + [info.get('fill', 0)] * (cap - len(info['values']))
+            for i, v in (info.get('sparse') or {}).items():
+                if int(i) < cap:
+                    vals[int(i)] = v
             if a.kind == 'b':
                 vals = [bool(v) for v in vals]
             lists[a.name] = RecList(vals)
@@ -322,7 +375,8 @@ def replay(specname, inputs):
         out['why'] = 'definition failed in CPython: %s: %s' % (type(e).__name__, e)
         return out
     call = dict(spec=sp, scalars=inputs['scalars'],
-                arrays={n: dict(cap=min(max(0, i['cap']), 4096), values=i['values']) for n, i in inputs['arrays'].items()})
+                arrays={n: dict(cap=min(max(0, i['cap']), 100000), values=i['values'], sparse=i.get('sparse'), fill=i.get('fill', 0))
+                        for n, i in inputs['arrays'].items()})
     nat = native.run_driver([call])
     out['native'] = dict(status=nat['status'], log=nat['log'][-1500:], results=nat['results'])
     out['spec'] = dict(raised=raised)
@@ -410,6 +464,8 @@ def main(report, tier):
     only = __import__('os').environ.get('VERIF_ONLY')
     if only:
         specs = [s for s in specs if any(x in s.name for x in only.split(','))]
+    from . import build
+    build.native_kernels()        # built once here; workers only load it (translator validation via ctypes)
     plans = runner.run_tasks([(check_spec, (s.name, N, None, 10000, True, False, True), 60) for s in specs])
     jobs, static = [], []
     for p in plans:
@@ -433,7 +489,8 @@ def summarize(report, tier, N, specs, static, results):
     per = collections.defaultdict(list)
     for r in results:
         per[r['unit']].append(r)
-    nobl = ndis = nq = nontriv = 0
+    nobl = ndis = nq = nontriv = nvalid = 0
+    mismatch = []
     samples, notexec, inconclusive, unsupported = [], [], [], []
     programs_ok = 0
     for unit, rs in sorted(per.items()):
@@ -447,6 +504,12 @@ def summarize(report, tier, N, specs, static, results):
             nq += len(tw)
             if tw.get('write-reachable') == 'sat' or tw.get('error-reachable') == 'sat':
                 nontriv += 1
+            v = r.get('validated') or {}
+            if v.get('ok') is True:
+                nvalid += 1
+            elif v.get('ok') is False:
+                report.harness_errors.append('encoding/native mismatch for %s case %s: %s' % (unit, r.get('fixed'), v.get('why')))
+                mismatch.append(unit)
         if st.get('disagree'):
             r = [r for r in rs if r['status'] == 'disagree'][0]
             cex = r.get('cex') or {}
@@ -492,7 +555,8 @@ def summarize(report, tier, N, specs, static, results):
         report.violation('%s|spec-not-executable' % kname, report.save_replay('spec_' + kname, dict(kernel=kname, detail=d)),
                          'the Python definition of %s in kernel-specification.yml is not executable: %s' % (kname, d))
     cov = dict(programs=max(1, programs_ok), disagreements_checked=nobl, obligations=nobl, discharged=ndis, evaluations=nq,
-               distinct_nontrivial=nontriv, samples=samples or [dict(note='no sample')],
+               distinct_nontrivial=nontriv, traces_validated_against_impl=nvalid, encoding_mismatches=sorted(set(mismatch)),
+               samples=samples or [dict(note='no sample')],
                rule='one program = one extern "C" specialization compared with its YAML definition; one evaluation = one '
                     'solver query; non-trivial = case whose write/error reachability twin is sat',
                specializations_total=len(specs), specializations_agree=programs_ok,
